@@ -5,3 +5,10 @@ pub use self::graph6_encoder::*;
 
 mod graph6_decoder;
 mod graph6_encoder;
+
+/// Verification hooks (feature `verif_hooks`): wrappers of private encoder/decoder helpers.
+#[cfg(feature = "verif_hooks")]
+pub mod verif_hooks {
+    pub use super::graph6_decoder::verif_hooks::*;
+    pub use super::graph6_encoder::verif_hooks::*;
+}
